@@ -25,6 +25,8 @@ fn main() {
         }
         std::process::exit(0);
     }
+    farm::cleanup_workdirs();
+    vcore::cli::set_exit_hook(farm::cleanup_workdirs);
     let code = std::panic::catch_unwind(|| vcore::cli::main_with(props::all()));
     farm::cleanup_workdirs();
     if code.is_err() {
